@@ -43,6 +43,9 @@ func NewSched(w *World) *Sched {
 		if point == "key.checked" {
 			w.KeyHook()
 		}
+		if len(point) > 5 && point[:5] == "snap." {
+			w.SnapHook(point, chunk)
+		}
 		if a == nil || s.Skip[point] {
 			return // unmanaged goroutine (the scheduler itself, vacuum, s2 writers)
 		}
